@@ -653,10 +653,11 @@ def run(tier: str, seed: int) -> CheckResult:
     disc = discovery_scenarios(tier)
     orch_back_to_back = [s for s in orch if s.params['spacing'] == 0.0]
     orch_spaced = [s for s in orch if s.params['spacing'] != 0.0]
+    disc_pairs = [s for s in disc if s.params['spacing'] == 0.0 and len(s.params['user']) == 2]     # two changes of the cluster in one instant
     if tier == 'quick':
         groups = [('watch-faults-scripted', scripted, 0, 30.0), ('watch-faults-searched', searched, 2, 40.0),
                   ('orchestration-spaced', orch_spaced, 0, 30.0), ('orchestration-back-to-back', orch_back_to_back, 1, 60.0),
-                  ('discovery', disc, 0, 60.0)]
+                  ('discovery', disc, 0, 60.0), ('discovery-back-to-back-pairs', disc_pairs, 1, 40.0)]
     else:
         groups = [('watch-faults-scripted', scripted, 1, 300.0), ('watch-faults-searched', searched, 3, 600.0),
                   ('orchestration-spaced', orch_spaced, 0, 300.0), ('orchestration-back-to-back', orch_back_to_back, 2, 900.0),
